@@ -677,6 +677,26 @@ pub fn run_case<T: El, N: ArrayLength>(c: &Case) -> (Out, Vec<ARec>, bool) {
                 })
             })
         }
+        18 => {
+            // boxed zip of two DIFFERENT element kinds (drop glue on one side only, or a zero-sized side)
+            let b = mk_arr_box::<T, N>(0);
+            let b2 = mk_arr_box::<T::Other, N>(2000);
+            let p = b.as_ptr() as usize;
+            let mut calls = 0i64;
+            phase(Some(p), move || {
+                b.zip(b2, move |x: T, y: T::Other| {
+                    let k = calls;
+                    calls += 1;
+                    if k == pan {
+                        panic!("injected zip panic");
+                    }
+                    // a zero-sized input has no identity: its index stands in for it
+                    let xid = if T::KIND == 1 { k } else { x.id() };
+                    let yid = if <T::Other as El>::KIND == 1 { 2000 + k } else { y.id() };
+                    T::mk(xid + yid + 7000)
+                })
+            })
+        }
         op => panic!("unknown op {}", op),
     };
     let log = stop_rec();
@@ -705,7 +725,7 @@ pub fn run_dyn(c: &Case) -> (Out, Vec<ARec>, bool) {
 /// closure calls / source polls / default() calls the operation makes when nothing panics
 pub fn calls_of(op: i128, n: usize, l: usize) -> usize {
     match op {
-        5 | 6 | 15 | 16 | 17 => n,
+        5 | 6 | 15 | 16 | 17 | 18 => n,
         7 | 12 => l.min(n) + 1,
         _ => 0,
     }
@@ -764,7 +784,7 @@ pub fn enumerate(ns: &[usize], all_pans_upto: usize, big_samples: usize, mut emi
             for k in ks {
                 emit(Case { aux: k as i128, ..base(11) });
             }
-            for op in [5i128, 6, 15, 16, 17] {
+            for op in [5i128, 6, 15, 16, 17, 18] {
                 for pan in pans(op, n) {
                     emit(Case { pan, ..base(op) });
                 }
